@@ -89,6 +89,8 @@ func (s *gsSuite) roundTrip(seq int) {
 	qs := cantoQuerySpecs(g1)
 	q1 := runQueries(n.App, qs)
 	invalid := validateSections(n, sec1)
+	// the exported state on one `S` line: the runner copies the latest S line into a replay file (the failing input)
+	s.t.Line(fmt.Sprintf("S %d export-of-chain-at-height-%d %s", seq, h, strings.Join(g1.Lines(seq, 1), " || ")))
 	for _, l := range g1.Lines(seq, 1) {
 		s.t.Line(l)
 	}
